@@ -356,9 +356,9 @@ func (s *Store[K, V]) GetWithSecodary(key K) (V, bool, error) {
 }
 
 func (s *Store[K, V]) policyNewEntry(hash uint64, shard *Shard[K, V], cost int64, entry *Entry[K, V], fromNVM bool) {
-	s.writeChan <- WriteBufItem[K, V]{
+	s.send(WriteBufItem[K, V]{
 		code: NEW, entry: entry, hash: hash, fromNVM: fromNVM, costChange: cost,
-	}
+	})
 }
 
 func (s *Store[K, V]) policyUpdateEntry(entry *Entry[K, V], hash uint64, cost, old int64, reschedule bool) {
@@ -366,9 +366,18 @@ func (s *Store[K, V]) policyUpdateEntry(entry *Entry[K, V], hash uint64, cost, o
 	// send cost change in event and apply them to entry policy weight
 	// so different order still works.
 	costChange := cost - old
-	s.writeChan <- WriteBufItem[K, V]{
+	s.send(WriteBufItem[K, V]{
 		entry: entry, code: UPDATE, costChange: costChange, rechedule: reschedule,
 		hash: hash,
+	})
+}
+
+// send queues a policy event; it gives up once the store is closed so that
+// writers never stay parked on a queue nobody drains any more.
+func (s *Store[K, V]) send(item WriteBufItem[K, V]) {
+	select {
+	case s.writeChan <- item:
+	case <-s.ctx.Done():
 	}
 }
 
@@ -496,7 +505,7 @@ func (s *Store[K, V]) Delete(key K) {
 	}
 	shard.mu.Unlock()
 	if ok {
-		s.writeChan <- WriteBufItem[K, V]{entry: entry, code: REMOVE, hash: h}
+		s.send(WriteBufItem[K, V]{entry: entry, code: REMOVE, hash: h})
 	}
 }
 
@@ -517,7 +526,7 @@ func (s *Store[K, V]) DeleteWithSecondary(key K) error {
 	}
 	shard.mu.Unlock()
 	if ok {
-		s.writeChan <- WriteBufItem[K, V]{entry: entry, code: REMOVE}
+		s.send(WriteBufItem[K, V]{entry: entry, code: REMOVE})
 	}
 	return nil
 }
